@@ -515,10 +515,35 @@ func parseGetValue(o string) map[string]string {
 			}
 		} else if c == ')' {
 			if depth == 2 && start >= 0 {
-				pair := s[start+1 : i]
-				sp := strings.IndexAny(pair, " \n\t")
-				if sp > 0 {
-					m[strings.TrimSpace(pair[:sp])] = strings.Join(strings.Fields(pair[sp+1:]), " ")
+				pair := strings.TrimSpace(s[start+1 : i])
+				// the key is the first s-expression of the pair (an atom or a balanced term such as "(select H p)")
+				sp := -1
+				if strings.HasPrefix(pair, "(") {
+					d := 0
+					inStr := false
+					for k := 0; k < len(pair); k++ {
+						ch := pair[k]
+						if ch == '"' {
+							inStr = !inStr
+						}
+						if inStr {
+							continue
+						}
+						if ch == '(' {
+							d++
+						} else if ch == ')' {
+							d--
+							if d == 0 {
+								sp = k + 1
+								break
+							}
+						}
+					}
+				} else {
+					sp = strings.IndexAny(pair, " \n\t")
+				}
+				if sp > 0 && sp < len(pair) {
+					m[strings.Join(strings.Fields(pair[:sp]), " ")] = strings.TrimSpace(pair[sp:])
 				}
 				start = -1
 			}
